@@ -164,3 +164,114 @@ def replay(rp):
         return 1 if o.violations else 0
     print("no engine replay registered")
     return 2
+
+
+# ---------------------------------------------------------------------------------------------------------------
+# C19: thread teardown matrix (one scenario per subprocess) + interleavings (sub-command `interleave`)
+# ---------------------------------------------------------------------------------------------------------------
+def teardown_engine(prop, tier, seed, out, known):
+    from concurrent.futures import ThreadPoolExecutor
+    t0 = time.time()
+    cfgs = ["full-dbg"] if tier == "quick" else ["full-dbg", "full-rel", "nofin-rel", "min-dbg"]
+    total, bad = 0, []
+    samples = []
+    for cfg in cfgs:
+        binpath, _ = driver.build(cfg)
+        combos = [(o, k, c, mn) for o in (0, 1) for k in range(10) for c in (0, 1) for mn in (0, 1)]
+
+        def one(x):
+            o, k, c, mn = x
+            p = subprocess.run([binpath, "teardown", "--order", str(o), "--kind", str(k), "--tls-collects", str(c), "--main", str(mn)], stdout=subprocess.PIPE, stderr=subprocess.PIPE, text=True, timeout=60)
+            return x, p.returncode, p.stdout, p.stderr
+        with ThreadPoolExecutor(max_workers=16) as ex:
+            for x, rc, so, se in ex.map(one, combos):
+                total += 1
+                line = [l for l in so.splitlines() if l.startswith("TEARDOWN")]
+                desc = "config %s: user thread-local %s the collector's, scenario %d, thread-local destructor %s, %s thread" % (cfg, "destroyed after" if x[0] == 0 else "destroyed before", x[1], "collects and allocates" if x[2] else "is passive", "main" if x[3] else "spawned")
+                if len(samples) < 4 and total % 17 == 1:
+                    samples.append(desc + " -> " + (line[0] if line else "no report"))
+                why = None
+                if rc != 0:
+                    why = "process exit status %s (%s)" % (rc, (se.strip().splitlines() or ["no message"])[-1][:200])
+                elif not line:
+                    why = "no report line"
+                else:
+                    kv = dict(w.split("=") for w in line[0].split() if "=" in w)
+                    if int(kv.get("double", 0)) or int(kv.get("bad_canary", 0)):
+                        why = "a value was dropped twice or a callback saw freed memory: " + line[0]
+                    elif int(kv.get("drops", 0)) > int(kv.get("created", 0)):
+                        why = "more drops than objects: " + line[0]
+                if why:
+                    bad.append((x, cfg, desc, why))
+    run = {"config": ",".join(cfgs), "lens": "teardown", "lens_args": "teardown matrix: 2 orders x 10 scenarios x {passive, collecting} thread-local destructor x {spawned, main} thread", "states": total, "transitions": total,
+           "executions": total, "fixpoint": True, "cut_reason": None, "samples": samples, "vacuity": {"scenarios": total, "failing": len(bad)}, "scope": {}, "wall_s": round(time.time() - t0, 1)}
+    out.runs.append(run)
+    seen = set()
+    for x, cfg, desc, why in bad:
+        sig = re.sub(r"\d+", "#", why)[:80]
+        if sig in seen:
+            continue
+        seen.add(sig)
+        v = {"property": "C19", "predicate": "P-teardown", "message": "thread teardown: %s: %s" % (desc, why)}
+        k = driver.match_known(prop, v, known)
+        if k:
+            out.known.append("%s (%s)" % (k.get("id", "?"), v["message"]))
+            continue
+        os.makedirs(driver.REPLAYS, exist_ok=True)
+        path = os.path.join(driver.REPLAYS, "C19-teardown-%d-%d-%d-%d-%s.json" % (x + (cfg,)))
+        json.dump({"property": "C19", "engine": "teardown", "config": cfg, "args": ["teardown", "--order", str(x[0]), "--kind", str(x[1]), "--tls-collects", str(x[2]), "--main", str(x[3])], "violations": [v]}, open(path, "w"), indent=1)
+        out.violations.append((path, "P-teardown " + v["message"]))
+    return {"teardown_scenarios": total}
+
+
+INTERLEAVE = {
+    "quick": [("full-dbg", ["--max-threads", "8"])],
+    "thorough": [("full-dbg", ["--max-threads", "16", "--pair-len", "5", "--triple-len", "3", "--thorough"]), ("full-rel", ["--max-threads", "16", "--pair-len", "5", "--triple-len", "2"]), ("nofin-rel", ["--max-threads", "8"])],
+}
+ENGINES["C19"] = [sub_runs("interleave", INTERLEAVE), teardown_engine]
+
+_replay_prev = replay
+
+
+def replay(rp):  # noqa: F811
+    if rp.get("engine") == "teardown":
+        binpath, _ = driver.build(rp["config"])
+        p = subprocess.run([binpath] + rp["args"])
+        print("exit status", p.returncode)
+        return 1 if p.returncode != 0 else 0
+    return _replay_prev(rp)
+
+
+def parallel_engine(prop, tier, seed, out, known):
+    """C19 (c): 16 worker threads explore independent worlds concurrently in one process. A violation of ANY oracle
+    that an isolated single-threaded replay of the same history does not reproduce can only come from state shared
+    between the collectors of different threads."""
+    binpath, _ = driver.build("full-dbg")
+    os.makedirs(os.path.join(driver.BUILD, "tmp"), exist_ok=True)
+    outfile = os.path.join(driver.BUILD, "tmp", "par-%d.json" % os.getpid())
+    depth = "9" if tier == "quick" else "13"
+    args = ["--lens", "auto", "--n", "3", "--v", "3", "--depth", depth, "--threads", "16", "--fresh", "0"]
+    rc, so, se, wall = driver.run_bin(binpath, ["explore"] + args + ["--out", outfile], timeout=3600)
+    if not os.path.exists(outfile):
+        out.machinery.append("parallel exploration died: %s" % se[-300:])
+        return {}
+    r = json.load(open(outfile))
+    os.remove(outfile)
+    r["config"] = "full-dbg"
+    r["lens_args"] = "parallel-vs-isolated " + " ".join(args)
+    out.runs.append(r)
+    lens_args = driver.strip_explore_only(args)
+    for f in r.get("found", [])[:3]:
+        rrc, rres, _ = driver.replay(binpath, lens_args, f["history"])
+        if rrc == 0:
+            v = {"property": "C19", "predicate": "P-indep", "message": "seen only while other threads were running their own collectors (an isolated replay of the same history is clean): " + f["violations"][0]["message"]}
+            k = driver.match_known(prop, v, known)
+            if k:
+                out.known.append("%s (%s)" % (k.get("id", "?"), v["message"]))
+                continue
+            path = driver.write_replay(prop, "full-dbg", lens_args, f["history"], f["history_pretty"], f.get("epilogue_pretty", ""), [v], "parallel-only")
+            out.violations.append((path, "P-indep [full-dbg] %s | history: %s" % (v["message"], f["history_pretty"])))
+    return {}
+
+
+ENGINES["C19"].append(parallel_engine)
